@@ -52,7 +52,7 @@ pub struct World {
     pub d: U,
 }
 
-pub const KEYS: [&str; 3] = ["AAA", "BBB", "CCC"];
+pub const KEYS: [&str; 4] = ["AAA", "BBB", "CCC", "DDD"];
 pub const TREASURY: &str = "treasury";
 pub const DRIVER: &str = "driver";
 pub const IF_EOA: &str = "ifeoa";
@@ -470,7 +470,7 @@ impl World {
     pub fn op_json(&self, op: &Op) -> Value {
         let r = |s: &str| self.resolve(s);
         let va = |i: usize| self.addrs.vamms.get(i).cloned().unwrap_or_else(|| "novamm".into());
-        let key = |i: usize| KEYS[i.min(2)].to_string();
+        let key = |i: usize| KEYS[i.min(3)].to_string();
         op_to_json(op, &r, &va, &key, &self.token_asset())
     }
 
